@@ -15,7 +15,7 @@ REPO = os.environ.get("VERIF_REPO", "/repo")
 LEAN_DIR = os.path.join(VERIF, "lean")
 CACHE = os.path.join(VERIF, ".cache")
 EVIDENCE = os.environ.get("VERIF_EVIDENCE_DIR", os.path.join(VERIF, "evidence"))  # redirected while trying mutants
-REPLAYS = os.path.join(VERIF, "replays")
+REPLAYS = os.environ.get("VERIF_REPLAY_DIR", os.path.join(VERIF, "replays"))
 DRIVER = os.path.join(LEAN_DIR, ".lake", "build", "bin", "driver")
 GUARD = "QUILL_VERIF"
 ALLOWED_AXIOMS = {"propext", "Quot.sound", "Classical.choice"}
